@@ -186,6 +186,29 @@ def predict(plan, inp, names):
     return ("completed", None, None)
 
 
+def predict_detail(plan, inp):
+    """(source file name, phrase of the last message line) of the failure record the
+    plan predicts for this input; None where the plan cannot tell"""
+    stem = inp["stem"]
+    if inp["kind"] in ("malformed", "empty"):
+        return (f"{stem}.fasta", None)
+    if plan["min_length"] and (inp["kind"] == "short" or max(6, inp["len"]) < plan["min_length"]):
+        return (f"{stem}.fasta", None)
+    for st in plan["steps"]:
+        o = st["outcomes"].get(stem, "ok")
+        if o == "raise":
+            return (f"{stem}.fasta", f"planned failure of {stem} in {st['tag']}")
+        if o == "none":
+            return (f"{stem}.fasta", "unexpected output value None")
+        if o == "false":
+            return (f"{stem}.fasta", f"planned false for {stem} in {st['tag']}")
+        if o == "relabel":
+            return (f"label-of-{stem}", f"planned relabel for {stem} in {st['tag']}")
+        if o == "wrong":
+            return (None, None)
+    return (None, None)
+
+
 def record_view(ds, plan):
     """{key: (kind, content)} as stored"""
     out = {}
@@ -430,6 +453,7 @@ def run(plan, tier="quick", real_pool=False) -> RunResult:
                     fview, fdups = record_view(fresh, plan)
                     if hasattr(fresh, "close"):
                         fresh.close()
+                    inp_by_stem = {i["stem"]: i for i in plan["inputs"]}
                     for who, v, d in (("live", view, dups), ("fresh", fview, fdups)):
                         if d:
                             res.add(f"C14.duplicate/{wr}{idc}", f"[{who}] identifiers stored twice: {d}", replay)
@@ -491,6 +515,16 @@ def run(plan, tier="quick", real_pool=False) -> RunResult:
                                 elif (a[0], a[1]) != (pred[1], pred[2]):
                                     res.add(f"C14.passthrough/{pred[1]}:stored",
                                             f"[{who}] failure record {stem!r} is {a[:2]}, plan predicts {pred[1:]}", replay)
+                                else:
+                                    # source and message of the stored record, predicted from the plan
+                                    # alone (the reference goes through the same serialisation code)
+                                    want_src, want_msg = predict_detail(plan, inp_by_stem[stem])
+                                    if want_src is not None and os.path.basename(str(a[2])) != want_src:
+                                        res.add(f"C14.record-detail/{wr}{idc}:source",
+                                                f"[{who}] failure record {stem!r} names source {a[2]!r}, expected {want_src!r}", replay)
+                                    elif want_msg is not None and want_msg not in str(a[3]):
+                                        res.add(f"C14.record-detail/{wr}{idc}:message",
+                                                f"[{who}] failure record {stem!r} has message {a[3]!r}, expected to contain {want_msg!r}", replay)
                         for pstem, (pkind, ppayload) in pre.items():
                             if pstem in stems and not (pkind == "completed"):
                                 continue  # retried (directory) or kept (SQLite): handled above
